@@ -667,14 +667,24 @@ fn c15_ports_run(case: &mut Case, rng: &mut Rng) {
                 let s = next_slot[h];
                 next_slot[h] += 1;
                 // mostly to the listener; sometimes to a closed port (refused) or an unowned address
-                let dst = match rng.below(8) {
+                // … or to the host itself: by its own address, or through 127.0.0.1 (accepted, refused, or given up
+                // while pending — the connector's port must come back in each case)
+                let dst = match rng.below(11) {
                     0 => format!("h{peer}:81"),
                     1 => "x0:80".to_string(),
                     2 => format!("h{h}:80"),
+                    8 => "lo:80".to_string(),
+                    9 => "lo:81".to_string(),
+                    10 => format!("h{h}:81"),
                     _ => format!("h{peer}:80"),
                 };
                 case.ctl(&format!("q h{h} tcp_connect s{s} {dst}"));
                 live[h].push(s);
+                if dst.starts_with("lo:") && rng.chance(1, 3) {
+                    // give up at once, before the request has been looked at
+                    case.ctl(&format!("q h{h} drop s{s}"));
+                    live[h].pop();
+                }
                 // the peer accepts now or later
                 if rng.chance(2, 3) {
                     let ps = next_slot[peer];
@@ -1279,6 +1289,24 @@ fn c12_run(case: &mut Case, rng: &mut Rng) {
                     }
                 }
             }
+            10 => {
+                // a connect whose request is cut off right behind it: the SYN is still on the link — in flight, or
+                // (zero latency, the server host has already had its turn) ready but not yet handed over — when the
+                // direction connector → server is explicitly partitioned; it must be refused, never accepted
+                if hosts > 1 {
+                    let h = 1 + rng.below(hosts as u64 - 1) as usize;
+                    let s = next_slot[h];
+                    next_slot[h] += 1;
+                    case.ctl(&format!("q h{h} tcp_connect s{s} h0:80"));
+                    case.ctl("step");
+                    match rng.below(3) {
+                        0 => case.ctl(&format!("partition1 h{h} h0")),
+                        1 => case.ctl(&format!("partition h0 h{h}")),
+                        _ => case.ctl(&format!("q h0 net_partition1 h{h} h0")),
+                    }
+                    pending.push((h, s));
+                }
+            }
             _ => {}
         }
         // poll every pending connect; successful ones write their nonce
@@ -1536,6 +1564,7 @@ fn c05_run(case: &mut Case, rng: &mut Rng) {
     let steps = rng.range(5, 40);
     let late_at = rng.below(steps);
     let mut exited: Vec<usize> = Vec::new();
+    let mut stalls = 0;
     for k in 0..steps {
         if case.cfg.late > 0 && k == late_at {
             case.ctl("reglate");
@@ -1553,6 +1582,22 @@ fn c05_run(case: &mut Case, rng: &mut Rng) {
                     case.ctl(&format!("q h{h} clock"));
                 }
                 _ => {}
+            }
+        }
+        if stalls < 2 && case.cfg.tick_us <= 5000 && rng.chance(1, 8) {
+            // a slow controller: a fresh incarnation with a background task whose destructor reads the clock, one
+            // step, then real time passes (more than the virtual time that incarnation has seen) before the host
+            // is torn down — the destructor runs between steps and must read the step boundary
+            stalls += 1;
+            let h = rng.below(n as u64) as usize;
+            case.ctl(&format!("bounce h{h}"));
+            case.ctl(&format!("q h{h} spawn_ticker"));
+            case.ctl(&format!("q h{h} clock"));
+            case.ctl("step");
+            case.ctl(&format!("stall {}", 2 * case.cfg.tick_us / 1000 + 2));
+            case.ctl(&format!("{} h{h}", if rng.chance(1, 2) { "crash" } else { "bounce" }));
+            if rng.chance(1, 2) {
+                case.ctl(&format!("bounce h{h}"));
             }
         }
         if rng.chance(1, 10) {
